@@ -53,6 +53,7 @@ type Spec struct {
 	ActionErrorBranches bool             `json:"actionErrorBranches,omitempty"`
 	ActionErrorNode     string           `json:"actionErrorNode,omitempty"`
 	NoAutoErrorNode     bool             `json:"noErrorNode,omitempty"`
+	ErrorNode           string           `json:"errorNode,omitempty"` // the name under which compilation adds the terminal node ("" = "error")
 }
 
 // State of a machine.
@@ -442,8 +443,14 @@ func (s *Spec) Step(st State, pending interface{}) StepResult {
 func (s *Spec) step(st State, pending interface{}) StepResult {
 	n, have := s.Nodes[st.Node]
 	if !have {
-		if st.Node == "error" && !s.NoAutoErrorNode {
-			// the error node is added at compile time: a terminal node
+		auto := s.ErrorNode
+		if auto == "" {
+			auto = "error"
+		}
+		if st.Node == auto && !s.NoAutoErrorNode {
+			// the error node is added at compile time, under the name the spec gives it: a
+			// terminal node.  (Failures still lead to "error": with another name given, a
+			// machine that failed sits at a node the spec does not have.)
 			n = &Node{}
 		} else {
 			return StepResult{Kind: Error, Class: "unknown-node"}
